@@ -2,7 +2,7 @@
     Directives used: those of [ExtrOcamlBasic] only (bool, option, unit, list, prod,
     sumbool, sumor as native OCaml types; [andb]/[orb] inlined).  [N], [positive],
     [Z], [comparison] stay extracted inductives. *)
-From Semver Require Import RParse.
+From Semver Require Import RParse NpmRange.
 From Coq Require Import Extraction ExtrOcamlBasic.
 Extraction Language OCaml.
 Set Extraction KeepSingleton.
@@ -13,4 +13,5 @@ Extraction "model.ml"
   bcmp bs_new bs_satisfies_p r_satisfies_p r_within r_allows_all r_allows_any
   r_intersect r_difference r_max_satisfying r_min_satisfying r_min_version r_print r_any
   range_eqb
-  r_parse.
+  r_parse
+  npm_admits npm_alt compile compile_alt known_class.
